@@ -288,3 +288,472 @@ def _counter_vars(stmts):
                 if isinstance(t, ast.Name) and _is_counter_inc(sub, t.id):
                     out.add(t.id)
     return out
+
+
+# ---------------------------------------------------------------------------
+# A2 / A6 exploration boundary
+# ---------------------------------------------------------------------------
+
+def _boundary_tests(func):
+    """Test nodes of func that decide whether exploration samples are discarded."""
+    cfg = cfg_of(func)
+    out = []
+    for t in cfg.nodes:
+        if t.kind == 'test' and '_discard_exploration' in unparse(t.expr):
+            out.append(t)
+    return cfg, out
+
+
+def _conj_set(e):
+    if isinstance(e, ast.BoolOp) and isinstance(e.op, ast.And):
+        s = set()
+        for v in e.values:
+            s |= _conj_set(v)
+        return s
+    return {unparse(e)}
+
+
+def rule_A2_A6(ctx, rid2='A2', rid6='A6'):
+    ctx.rule(rid2, 'posterior() and update_shell_info select the exploration boundary with the '
+             'same predicate over the same attributes')
+    ctx.rule(rid6, 'exploration-boundary pair: the row boundary (shell_end_exp) and the proposal '
+             'boundary (shell_n_sample_exp) are assigned together and applied together')
+    prog = ctx.program
+    post = prog.func('Sampler.posterior')
+    usi = prog.func('Sampler.update_shell_info')
+    cp, tp = _boundary_tests(post)
+    cu, tu = _boundary_tests(usi)
+    ctx.require(len(tp) == 1 and len(tu) == 1, 'exploration-boundary tests not found '
+                '(posterior %d, update_shell_info %d)' % (len(tp), len(tu)))
+    sp, su = _conj_set(tp[0].expr), _conj_set(tu[0].expr)
+    ctx.ob(rid2, 'boundary-predicate', sp == su, post.where(tp[0].ast),
+           'both use the predicate %s' % sorted(sp) if sp == su else
+           'posterior() discards under %s but the statistics under %s: weights and volumes '
+           'describe different sample sets' % (sorted(sp), sorted(su)))
+    want = {'self._discard_exploration', 'self.explored'}
+    ctx.ob(rid2, 'boundary-predicate-content', sp == want, post.where(tp[0].ast),
+           'the predicate is `_discard_exploration and explored`' if sp == want else
+           'the predicate is %s' % sorted(sp))
+
+    def branch_uses(cfg, t, label, func):
+        nodes = set()
+        for s, lab in t.succ:
+            if lab is label:
+                # nodes control dependent on this edge
+                for n in cfg.nodes:
+                    if (t.id, label) in cfg.control_deps(n.id):
+                        nodes.add(n.id)
+        attrs = set()
+        for nid in nodes:
+            a = cfg.nodes[nid].ast
+            for sub in ast.walk(a) if cfg.nodes[nid].kind == 'stmt' else []:
+                if isinstance(sub, ast.Attribute) and isinstance(sub.value, ast.Name) and \
+                        sub.value.id == func.self_name:
+                    attrs.add(sub.attr)
+        return attrs
+    ap = branch_uses(cp, tp[0], True, post)
+    au = branch_uses(cu, tu[0], True, usi)
+    ctx.ob(rid2, 'boundary-rows(posterior)', 'shell_end_exp' in ap, post.where(tp[0].ast),
+           'posterior() starts each shell at shell_end_exp when discarding')
+    ctx.ob(rid6, 'Sampler.update_shell_info:applied-together', {
+        'shell_end_exp', 'shell_n_sample_exp'} <= au, usi.where(tu[0].ast),
+           'the discarding branch slices rows by shell_end_exp and subtracts shell_n_sample_exp'
+           if {'shell_end_exp', 'shell_n_sample_exp'} <= au else
+           'the discarding branch uses %s only: rows and proposal counts refer to different '
+           'phases' % sorted(au & {'shell_end_exp', 'shell_n_sample_exp'}))
+    ape = branch_uses(cp, tp[0], False, post) | branch_uses(cu, tu[0], False, usi)
+    ctx.ob(rid6, 'boundary-not-applied-when-keeping', not (ape & {
+        'shell_end_exp', 'shell_n_sample_exp'}), usi.where(tu[0].ast),
+           'the keeping branch does not use the exploration boundaries')
+    # the slice in update_shell_info uses the start selected above, for this shell
+    run = prog.func('Sampler.run')
+    cr = cfg_of(run)
+    asg = {}
+    for n in cr.nodes:
+        if n.kind == 'stmt' and isinstance(n.ast, ast.Assign):
+            d = dotted(n.ast.targets[0])
+            if d in ('self.shell_end_exp', 'self.shell_n_sample_exp'):
+                asg.setdefault(d, []).append(n)
+    ok = len(asg) == 2 and all(len(v) == 1 for v in asg.values())
+    if ok:
+        a, b = asg['self.shell_end_exp'][0], asg['self.shell_n_sample_exp'][0]
+        ok = cr.guards(a.id) == cr.guards(b.id)
+        # row boundary from the stored arrays, proposal boundary from the proposal counts
+        ok = ok and 'self.points' in unparse(a.ast.value) or 'self.log_l' in unparse(a.ast.value)
+        ok = ok and 'self.shell_n_sample' in unparse(b.ast.value)
+    ctx.ob(rid6, 'Sampler.run:assigned-together', ok, run.where(),
+           'both boundaries are recorded in the same block at the end of exploration: rows from '
+           'the stored arrays, proposals from shell_n_sample' if ok else
+           'the two exploration boundaries are not recorded together from the matching '
+           'quantities')
+
+
+# ---------------------------------------------------------------------------
+# A3 pool merge
+# ---------------------------------------------------------------------------
+
+def rule_A3(ctx, rid='A3'):
+    ctx.rule(rid, 'pool merge: in NautilusBound.sample the pool branch accumulates exactly the '
+             'counters that the serial branch advances (transitively), each from the same '
+             'attribute path of the worker result, plus the proposal cache')
+    from .resolve import resolver
+    prog = ctx.program
+    res = resolver(prog)
+    f = prog.func('NautilusBound.sample')
+    cfg = cfg_of(f)
+    # serial counters: aug-assigned numeric attributes reachable from the serial loop
+    serial = set()
+    for c, a, k in res.direct(f).writes:
+        if k == 'aug' and c == 'NautilusBound':
+            serial.add(('self', a))
+    # callee on the outer bound
+    for node, callees, status in res.direct(f).calls:
+        for cal in callees:
+            if cal.qualname == 'Union.sample':
+                for c, a, k in res.direct(cal).writes:
+                    if k == 'aug' and c == 'Union':
+                        serial.add(('self.outer_bound', a))
+    # pool branch: statements inside `for bound in bounds` over the map result
+    merged = set()
+    crossed = []
+    for lp in walk_no_nested(f.node):
+        if not isinstance(lp, ast.For) or not isinstance(lp.target, ast.Name):
+            continue
+        w = lp.target.id
+        for st in lp.body:
+            if isinstance(st, ast.AugAssign) and isinstance(st.op, ast.Add):
+                tp = dotted(st.target)
+                vp = dotted(st.value)
+                if tp and vp and tp.startswith('self.') and vp.startswith(w + '.'):
+                    path, attr = tp.rsplit('.', 1)
+                    merged.add((path, attr))
+                    if vp[len(w):] != tp[len('self'):]:
+                        crossed.append((tp, vp))
+    ctx.require(merged, 'NautilusBound.sample: pool merge loop not found')
+    # the serial branch advances its own counters once per round with the same K; the
+    # pool branch must add the workers' counters
+    serial_cnt = {(p, a) for p, a in serial if a in ('n_sample', 'n_reject')}
+    for p, a in sorted(serial_cnt | merged):
+        ok = (p, a) in merged and (p, a) in serial_cnt
+        ctx.ob(rid, 'NautilusBound.sample:merge(%s.%s)' % (p, a), ok, f.where(),
+               'counter %s.%s is advanced serially and merged from the workers' % (p, a) if ok
+               else ('counter %s.%s is advanced by the serial branch but not merged from the '
+                     'pool workers: volumes differ between serial and pooled sampling' % (p, a)
+                     if (p, a) in serial_cnt else
+                     'counter %s.%s is merged from the workers but never advanced serially'
+                     % (p, a)))
+    ctx.ob(rid, 'NautilusBound.sample:merge-paths', not crossed, f.where(),
+           'each counter is merged from the same attribute path of the worker' if not crossed
+           else 'crossed merge: %s' % crossed)
+    # the cache
+    okc = any(isinstance(st, ast.Assign) and dotted(st.targets[0]) == 'self.points' and
+              'bound.points' in unparse(st.value) and 'self.points' in unparse(st.value)
+              for lp in walk_no_nested(f.node) if isinstance(lp, ast.For) for st in lp.body)
+    ctx.ob(rid, 'NautilusBound.sample:merge(cache)', okc, f.where(),
+           'worker proposals are stacked into the cache after the existing ones')
+
+
+# ---------------------------------------------------------------------------
+# A5 transfer pairing, Q3
+# ---------------------------------------------------------------------------
+
+def rule_A5(ctx, rid='A5'):
+    ctx.rule(rid, 'transfer pairing in sample_shell: candidates and replaced proposals are '
+             'selected by equality with the same shell index, both draws use the same count n = '
+             'min(len, len) without replacement, consumed candidates are marked on the same '
+             'path, replaced proposals are removed before anything is returned, and transfer '
+             'candidates are only accepted for the newest shell')
+    prog = ctx.program
+    f = prog.func('Sampler.sample_shell')
+    cfg = cfg_of(f)
+    # guard at the top
+    params = [p for p in f.params if p != f.self_name]
+    idx_p, st_p = params[0], params[1]
+    guard_ok = False
+    for t in cfg.nodes:
+        if t.kind == 'test' and st_p in names_loaded(t.expr) and idx_p in names_loaded(t.expr) \
+                and _has_value(cfg, t.id, t.expr, 'len(self.bounds) - 1'):
+            for s, lab in t.succ:
+                if lab is True and isinstance(cfg.nodes[s].ast, ast.Raise):
+                    guard_ok = True
+    ctx.ob(rid, 'Sampler.sample_shell:newest-shell-only', guard_ok, f.where(),
+           'transfer candidates for any shell but the newest are rejected' if guard_ok else
+           'transfer candidates are accepted for shells other than the newest')
+    # the inner loop over earlier shells
+    loops = [lp for lp in walk_no_nested(f.node) if isinstance(lp, ast.For) and
+             isinstance(lp.target, ast.Name) and isinstance(lp.iter, ast.Call) and
+             dotted(lp.iter.func) == 'range' and len(lp.iter.args) == 1 and
+             _has_value(cfg, cfg.node_of(lp).id, lp.iter.args[0], 'len(self.bounds) - 1')]
+    ctx.require(len(loops) == 1, 'sample_shell: loop over the earlier shells not found')
+    lp = loops[0]
+    sv = lp.target.id
+    eq = {}
+    for st in lp.body:
+        if isinstance(st, ast.Assign) and isinstance(st.targets[0], ast.Name):
+            for sub in ast.walk(st.value):
+                if isinstance(sub, ast.Compare) and len(sub.ops) == 1 and \
+                        isinstance(sub.ops[0], ast.Eq) and \
+                        isinstance(sub.comparators[0], ast.Name) and \
+                        sub.comparators[0].id == sv and isinstance(sub.left, ast.Name):
+                    eq[st.targets[0].id] = sub.left.id
+    ok = len(eq) == 2 and st_p in eq.values()
+    ctx.ob(rid, 'Sampler.sample_shell:same-shell-both-sides', ok, f.where(lp),
+           'candidates (%s == %s) and proposals are matched on the same shell index' % (st_p, sv)
+           if ok else 'candidates and replaced proposals are not both selected by equality with '
+           'the loop shell (found %s)' % eq)
+    # provenance of the proposals' shells: shell_association with n_max = len(bounds) - 1
+    other = [v for v in eq.values() if v != st_p]
+    okp = False
+    if other:
+        for st in walk_no_nested(f.node):
+            if isinstance(st, ast.Assign) and isinstance(st.targets[0], ast.Name) and \
+                    st.targets[0].id == other[0] and isinstance(st.value, ast.Call) and \
+                    dotted(st.value.func) == 'self.shell_association':
+                nm = [k.value for k in st.value.keywords if k.arg == 'n_max']
+                if len(st.value.args) > 1:
+                    nm = [st.value.args[1]]
+                okp = bool(nm) and cfg.has(st) and _has_value(
+                    cfg, cfg.node_of(st).id, nm[0], 'len(self.bounds) - 1')
+    ctx.ob(rid, 'Sampler.sample_shell:provenance-before-newest-bound', okp, f.where(lp),
+           'the provenance of fresh proposals is their shell before the newest bound existed')
+    # choices
+    ch = [c for c in ast.walk(lp) if isinstance(c, ast.Call) and isinstance(c.func, ast.Attribute)
+          and c.func.attr == 'choice' and dotted(c.func.value) == 'self.rng']
+    okc = len(ch) == 2
+    sizes = set()
+    for c in ch:
+        size = [k.value for k in c.keywords if k.arg == 'size']
+        rep = [k.value for k in c.keywords if k.arg == 'replace']
+        if not (size and rep and isinstance(rep[0], ast.Constant) and rep[0].value is False):
+            okc = False
+        if size:
+            sizes.add(unparse(size[0]))
+        if not (c.args and isinstance(c.args[0], ast.Name) and c.args[0].id in eq):
+            okc = False
+    okc = okc and len(sizes) == 1
+    nname = next(iter(sizes)) if sizes else None
+    okn = False
+    for st in lp.body:
+        if isinstance(st, ast.Assign) and isinstance(st.targets[0], ast.Name) and \
+                st.targets[0].id == nname and isinstance(st.value, ast.Call) and \
+                dotted(st.value.func) == 'min' and \
+                {unparse(a) for a in st.value.args} == {'len(%s)' % k for k in eq}:
+            okn = True
+    ctx.ob(rid, 'Sampler.sample_shell:same-count-no-replacement', okc and okn, f.where(lp),
+           'both sides draw n = min(len, len) distinct elements' if okc and okn else
+           'the two draws do not use one count n = min(len(candidates), len(proposals)) without '
+           'replacement')
+    # mark consumed candidates
+    marks = [st for st in ast.walk(lp) if isinstance(st, ast.Assign) and
+             isinstance(st.targets[0], ast.Subscript) and
+             isinstance(st.targets[0].value, ast.Name) and st.targets[0].value.id == st_p and
+             isinstance(st.value, ast.UnaryOp) or
+             (isinstance(st, ast.Assign) and isinstance(st.targets[0], ast.Subscript) and
+              isinstance(st.targets[0].value, ast.Name) and st.targets[0].value.id == st_p)]
+    okm = False
+    if ch and marks:
+        cn = [cfg.node_of(c).id for c in ch if c.args[0].id != [k for k, v in eq.items()
+                                                               if v != st_p][0]]
+        okm = all(any(cfg.guards(cfg.node_of(m).id) == cfg.guards(x) and
+                      const_like(m.value) == -1 for m in marks) for x in cn)
+    ctx.ob(rid, 'Sampler.sample_shell:consumed-candidates-marked', okm, f.where(lp),
+           'consumed candidates are marked (-1) on the path that draws them' if okm else
+           'drawn transfer candidates are not marked as consumed: a candidate could be '
+           'transferred twice')
+    # replaced proposals removed before the rows are counted
+    rep_names = set()
+    for st in ast.walk(lp):
+        if isinstance(st, ast.Assign) and isinstance(st.targets[0], ast.Subscript) and \
+                isinstance(st.targets[0].value, ast.Name) and \
+                isinstance(st.value, ast.Constant) and st.value.value is True:
+            rep_names.add(st.targets[0].value.id)
+    okr = False
+    for st in walk_no_nested(f.node):
+        if isinstance(st, ast.Assign) and isinstance(st.value, ast.Subscript) and \
+                isinstance(st.value.slice, ast.UnaryOp) and \
+                isinstance(st.value.slice.op, ast.Invert) and \
+                isinstance(st.value.slice.operand, ast.Name) and \
+                st.value.slice.operand.id in rep_names and cfg.has(st):
+            nid = cfg.node_of(st).id
+            if all(cfg.must_pass(cfg.node_of(c).id, x.id, {nid}) for c in ch
+                   for x in cfg.nodes if x.kind == 'stmt' and isinstance(x.ast, ast.AugAssign)
+                   and 'len(' in unparse(x.ast.value)):
+                okr = True
+    ctx.ob(rid, 'Sampler.sample_shell:replaced-proposals-removed', okr, f.where(),
+           'proposals replaced by transfer candidates are removed before the rows are counted '
+           'and returned' if okr else
+           'replaced proposals are still counted / returned: the batch would contain both the '
+           'transfer candidate and the proposal it replaces')
+
+
+def _has_value(cfg, nid, expr, template):
+    """Does `expr` (evaluated at nid, single-definition locals inlined) contain a
+    sub-expression equal to `template`?"""
+    want = ekey(cfg, nid, ast.parse(template, mode='eval').body)
+    import copy
+    from .exprs import _Keyer
+    inl = _Keyer(cfg, nid, True).visit(copy.deepcopy(expr))
+    for sub in ast.walk(inl):
+        if isinstance(sub, ast.expr) and ast.dump(sub, annotate_fields=False) == want:
+            return True
+    return False
+
+
+def const_like(e):
+    from .exprs import const_value
+    return const_value(e)
+
+
+def rule_Q3(ctx, rid='Q3'):
+    ctx.rule(rid, 'the number added to shell_n_sample[shell] in add_samples is the proposal '
+             'count returned by the sample_shell call on the same path (not the number of rows '
+             'kept), and the index is the shell that was sampled')
+    prog = ctx.program
+    f = prog.func('Sampler.add_samples')
+    cfg = cfg_of(f)
+    augs = [n for n in cfg.nodes if n.kind == 'stmt' and isinstance(n.ast, ast.AugAssign) and
+            root_attr(n.ast.target, f.self_name) and
+            root_attr(n.ast.target, f.self_name)[0] == 'shell_n_sample']
+    ctx.require(len(augs) == 1, 'add_samples: update of shell_n_sample not found')
+    a = augs[0]
+    okv = isinstance(a.ast.op, ast.Add) and isinstance(a.ast.value, ast.Name)
+    src_ok = False
+    if okv:
+        defs = cfg.defs_at(a.id, a.ast.value.id)
+        src_ok = bool(defs)
+        for d in defs:
+            dn = cfg.nodes[d]
+            if not (dn.kind == 'stmt' and isinstance(dn.ast, ast.Assign) and
+                    isinstance(dn.ast.value, ast.Call) and
+                    dotted(dn.ast.value.func) == 'self.sample_shell' and
+                    isinstance(dn.ast.targets[0], ast.Tuple) and
+                    len(dn.ast.targets[0].elts) >= 2 and
+                    isinstance(dn.ast.targets[0].elts[1], ast.Name) and
+                    dn.ast.targets[0].elts[1].id == a.ast.value.id):
+                src_ok = False
+    ctx.ob(rid, 'Sampler.add_samples:proposal-count-source', okv and src_ok, f.where(a.ast),
+           'shell_n_sample grows by the second value returned by sample_shell (the proposal '
+           'count)' if okv and src_ok else
+           'shell_n_sample grows by `%s`, which is not the proposal count returned by '
+           'sample_shell' % unparse(a.ast.value))
+    # every sample_shell call samples the shell that is then updated
+    shell = [p for p in f.params if p != f.self_name][0]
+    ra = root_attr(a.ast.target, f.self_name)
+    oki = ra[1] and isinstance(ra[1][0][1], ast.Name) and ra[1][0][1].id == shell
+    for c in walk_no_nested(f.node):
+        if isinstance(c, ast.Call) and dotted(c.func) == 'self.sample_shell' and cfg.has(c):
+            arg = c.args[0]
+            from .pathrules import _guarded_equal
+            same = (isinstance(arg, ast.Name) and arg.id == shell) or _guarded_equal(
+                cfg, cfg.node_of(c).id, arg, ast.Name(id=shell, ctx=ast.Load()))
+            ctx.ob(rid, 'Sampler.add_samples:sampled-shell-is-counted-shell', bool(oki and same),
+                   f.where(c), 'proposals drawn for shell `%s` are counted for shell `%s`' % (
+                       unparse(arg), shell))
+
+
+# ---------------------------------------------------------------------------
+# Q1 / Q2 union sampling dependencies
+# ---------------------------------------------------------------------------
+
+def _depends(cfg, nid, expr, pred, depth=0, seen=None):
+    """Does the value of `expr` at node nid depend (through local def-use chains) on a
+    sub-expression satisfying pred?"""
+    seen = seen if seen is not None else set()
+    for sub in ast.walk(expr):
+        if pred(sub):
+            return True
+    if depth > 8:
+        return False
+    for sub in ast.walk(expr):
+        if isinstance(sub, ast.Name) and isinstance(sub.ctx, ast.Load):
+            for d in cfg.defs_at(nid, sub.id):
+                if (d, sub.id) in seen:
+                    continue
+                seen.add((d, sub.id))
+                dn = cfg.nodes[d]
+                if dn.kind == 'stmt' and isinstance(dn.ast, (ast.Assign, ast.AugAssign)):
+                    if _depends(cfg, d, dn.ast.value, pred, depth + 1, seen):
+                        return True
+    return False
+
+
+def rule_Q1_Q2(ctx, rid1='Q1', rid2='Q2'):
+    ctx.rule(rid1, 'overlap correction: the acceptance mask applied to union proposals depends '
+             'on the multiplicity of each proposal counted over ALL members of the union')
+    ctx.rule(rid2, 'volume allocation: the per-member proposal counts depend on the member '
+             'volumes (log_v_all) and are paired with the members in the same order')
+    prog = ctx.program
+    f = prog.func('Union.sample')
+    cfg = cfg_of(f)
+
+    def is_multiplicity(e):
+        # np.sum([b.contains(points) for b in self.bounds], axis=0)
+        if isinstance(e, ast.Call) and dotted(e.func) in ('np.sum', 'sum', 'np.count_nonzero') \
+                and e.args and isinstance(e.args[0], (ast.ListComp, ast.GeneratorExp)):
+            lc = e.args[0]
+            g = lc.generators[0]
+            if dotted(g.iter) == 'self.bounds' and not g.ifs and \
+                    isinstance(lc.elt, ast.Call) and isinstance(lc.elt.func, ast.Attribute) and \
+                    lc.elt.func.attr == 'contains':
+                return True
+        return False
+    # last row selection of the proposals before they are cached
+    caches = [n for n in cfg.nodes if n.kind == 'stmt' and isinstance(n.ast, ast.Assign) and
+              dotted(n.ast.targets[0]) == 'self.points' and 'vstack' in unparse(n.ast.value)]
+    ctx.require(caches, 'Union.sample: cache update not found')
+    cache = caches[0]
+    pname = [s.id for s in ast.walk(cache.ast.value) if isinstance(s, ast.Name) and
+             s.id != 'np'][0]
+    sels = [n for n in cfg.nodes if n.kind == 'stmt' and isinstance(n.ast, ast.Assign) and
+            isinstance(n.ast.targets[0], ast.Name) and n.ast.targets[0].id == pname and
+            isinstance(n.ast.value, ast.Subscript) and
+            isinstance(n.ast.value.value, ast.Name) and n.ast.value.value.id == pname]
+    dep = [s for s in sels if _depends(cfg, s.id, s.ast.value.slice, is_multiplicity)]
+    ok = bool(dep) and any(cfg.dominates(s.id, cache.id) for s in dep)
+    ctx.ob(rid1, 'Union.sample:acceptance-depends-on-multiplicity', ok, f.where(cache.ast),
+           'the proposals that are cached were thinned by a mask that depends on their '
+           'multiplicity over all members of self.bounds' if ok else
+           'no thinning by multiplicity over all members precedes the cache update: overlapping '
+           'ellipsoids are over-represented')
+    # the multiplicity is evaluated on the proposals being thinned (same value)
+    if dep:
+        s = dep[0]
+        mult_on = False
+        for d in cfg.nodes:
+            if d.kind == 'stmt' and isinstance(d.ast, ast.Assign) and \
+                    is_multiplicity(d.ast.value):
+                arg = d.ast.value.args[0].elt.args[0]
+                if isinstance(arg, ast.Name) and arg.id == pname and \
+                        cfg.defs_at(d.id, pname) == cfg.defs_at(s.id, pname):
+                    mult_on = True
+        ctx.ob(rid1, 'Union.sample:multiplicity-of-same-proposals', mult_on, f.where(s.ast),
+               'the multiplicity is counted for the very proposals that are thinned')
+    # Q2
+    mults = [n for n in cfg.nodes if n.kind == 'stmt' and isinstance(n.ast, ast.Assign) and
+             isinstance(n.ast.value, ast.Call) and
+             dotted(n.ast.value.func) == 'self.rng.multinomial']
+    ctx.require(mults, 'Union.sample: multinomial allocation not found')
+    m = mults[0]
+    okv = _depends(cfg, m.id, m.ast.value.args[1],
+                   lambda e: isinstance(e, ast.Attribute) and dotted(e) == 'self.log_v_all')
+    ctx.ob(rid2, 'Union.sample:allocation-depends-on-volumes', okv, f.where(m.ast),
+           'the per-member proposal counts are drawn with probabilities derived from log_v_all'
+           if okv else 'the allocation of proposals to members ignores the member volumes')
+    cname = m.ast.targets[0].id if isinstance(m.ast.targets[0], ast.Name) else None
+    okz = False
+    for lc in ast.walk(f.node):
+        if isinstance(lc, (ast.ListComp, ast.GeneratorExp)):
+            g = lc.generators[0]
+            if isinstance(g.iter, ast.Call) and dotted(g.iter.func) == 'zip' and \
+                    len(g.iter.args) == 2 and dotted(g.iter.args[0]) == 'self.bounds' and \
+                    isinstance(g.iter.args[1], ast.Name) and g.iter.args[1].id == cname and \
+                    isinstance(g.target, ast.Tuple) and isinstance(lc.elt, ast.Call) and \
+                    isinstance(lc.elt.func, ast.Attribute) and lc.elt.func.attr == 'sample' and \
+                    isinstance(lc.elt.func.value, ast.Name) and \
+                    lc.elt.func.value.id == g.target.elts[0].id and lc.elt.args and \
+                    isinstance(lc.elt.args[0], ast.Name) and \
+                    lc.elt.args[0].id == g.target.elts[1].id:
+                okz = True
+    ctx.ob(rid2, 'Union.sample:counts-paired-with-members', okz, f.where(m.ast),
+           'member k draws the k-th count (zip(self.bounds, counts))' if okz else
+           'the counts are not paired positionally with the members')
